@@ -110,8 +110,12 @@ def energy_fn(cfg):
 
 
 def state_new_fn(cfg):
+    import jax.numpy as np
+
     def S(H, state, dt, pvec):
         m = make_model(cfg, pvec)
+        if cfg.family == 'pf':
+            return m.compute_state_new(H, 0.0, np.zeros(2), state, dt)
         return m.compute_state_new(H, state, dt)
     return S
 
